@@ -32,7 +32,7 @@ def shards(tier, seed):
 
 def floors(tier):
     return {"solves:in_process": 120, "solves:other_process": 120, "config:hybrid": 15, "config:evolutionary": 15, "config:n_emitter>1": 10,
-            "config:dm": 10, "hof:entries_checked": 150, "hof:updates_observed": 200, "generations:checked": 200, "aliasing:checks": 200}
+            "config:dm": 10, "hof:entries_checked": 150, "hof:updates_observed": 200, "generations:checked": 200, "aliasing:checks": 200, "config:seed_0": 3}
 
 
 def make_config(rng):
@@ -51,7 +51,7 @@ def make_config(rng):
             "backend": "DensityMatrixCompiler" if (rng.random() < 0.45 and not hybrid) else "StabilizerCompiler",
             "n_pop": int(rng.integers(3, 9)), "n_stop": int(rng.integers(3, 9)), "n_hof": int(rng.integers(1, 6)),
             "tournament_k": int(rng.integers(0, 4)), "selection": bool(rng.integers(2)), "adaptive": bool(rng.integers(2)),
-            "det": int(rng.integers(2)), "seed": int(rng.integers(100000))}
+            "det": int(rng.integers(2)), "seed": int(rng.integers(100000)) if rng.random() > 0.2 else int(rng.integers(0, 2))}   # seeds 0 and 1 are common user choices
 
 
 def build_solver(cfg):
@@ -215,6 +215,8 @@ def check_config(cfg, ctx, m, mon, probe):
     case = {"config": cfg}
     probe.case = case
     ctx.count("config:hybrid" if cfg["hybrid"] else "config:evolutionary")
+    if cfg["seed"] == 0:
+        ctx.count("config:seed_0")
     if cfg["backend"].startswith("Density"):
         ctx.count("config:dm")
     if cfg["n_emitter"] > 1 and not cfg["hybrid"]:
